@@ -131,14 +131,13 @@ class ScriptedSocket(_SocketLike):
 
 class RealPairSocket(_SocketLike):
     """One end of a REAL socket.socketpair(); the chunks are written to the other end by a sender thread with a short pause
-    after each, then that end is closed.  Reads go to the real socket (5 s timeout = error, a safety net only)."""
+    after each, then that end is closed.  Reads go to the real socket and block like real reads (no wall-clock limit decides anything: the sender always ends by closing its end; a receiver stuck for good is left to the shard watchdog = exit 2)."""
 
     def __init__(self, chunks):
         import socket
         import threading
         import time
         self._a, self._b = socket.socketpair()
-        self._b.settimeout(5.0)
         self.sent = []
 
         def feed():
